@@ -164,16 +164,18 @@ pub fn run_a(rep: &Report, tier: Tier) {
 
 /// detections of one step of a relative-motion word
 fn frame(word: &[usize], step: usize, family: usize) -> Vec<Det> {
-    if family == 7 {
+    if family == 7 || family == 8 {
         // the approach / cross / separate family turned as a whole by 0.6 rad about the origin: every object keeps
         // its heading from frame to frame (detection and track are equally oriented), IoU does not change under a
         // rotation of the plane
-        let (sn, cs) = 0.6f32.sin_cos();
+        // family 8: the same with a NEGATIVE heading (a signed angle convention)
+        let ang = if family == 7 { 0.6f32 } else { -0.5 };
+        let (sn, cs) = ang.sin_cos();
         return frame(word, step, 1)
             .into_iter()
             .map(|d| {
                 let (x, y) = (d.bbox.xc, d.bbox.yc);
-                let mut n = Det { bbox: Universal2DBox::new_with_confidence(cs * x - sn * y, sn * x + cs * y, Some(0.6), d.bbox.aspect, d.bbox.height, d.bbox.confidence), custom_id: d.custom_id, feature: None, quality: None };
+                let mut n = Det { bbox: Universal2DBox::new_with_confidence(cs * x - sn * y, sn * x + cs * y, Some(ang), d.bbox.aspect, d.bbox.height, d.bbox.confidence), custom_id: d.custom_id, feature: None, quality: None };
                 n.custom_id = d.custom_id;
                 n
             })
@@ -284,7 +286,7 @@ pub fn run_b(rep: &Report, tier: Tier) {
     let greedy_differs = AtomicU64::new(0);
     let continued = AtomicU64::new(0);
     for cfg in cfgs {
-        for family in 0..8usize {
+        for family in 0..9usize {
             if rep.out_of_time() {
                 rep.cap_hit("wall budget reached in the end-to-end association part");
                 return;
